@@ -182,3 +182,96 @@ Theorem C11_boot_files_nonempty_after_every_history ops : BFix (brun binit ops).
 Proof. first [exact (@ab_run_fix) | apply (@ab_run_fix) | intros; eapply (@ab_run_fix); eassumption]. Qed.
 
 End AccountBootStatements.
+
+(* ---- opening a bootable image: Model/BootParse.v (what open reconstructs of El Torito -- boot record, catalog bytes, entries, boot files with and without names via _link_eltorito / _hidden_boot_file_length -- composed with the edit-history model AccountBoot).  For EVERY history: open(write(s)) is the explicit state [reopened s]; it differs from s only as reopened_equiv says (a boot file without name keeps its extent and ALL its bytes, plus zero padding to the block end); every state reachable by ANY number of edit / write / open rounds satisfies AccountBoot's invariants again (space exact, entries point at live boot files of their own); rm_eltorito after reopen releases everything.  The code before the two repairs this model exposed (063269b, 9223b0e) is refuted. *)
+From PV.Base Require Prim.
+From PV.Gen Require GenConst GenFun.
+From PV.Model Require Names Pack Alloc Codec Eltorito Account AccountLinks AccountBoot BootParse.
+From PV.Proofs Require PackProofs AllocProofs AccountLemmas AccountProofs AccountLinksLemmas AccountLinksPurge AccountLinksInv AccountBootLemmas AccountBootInv AccountBootInv2 AccountBootFix AccountBootProofs BootParseLayout BootParseCat BootParseWalk BootParseLink BootParseTable BootParseProofs BootParseReopen BootParseRoom BootParseExact BootParseInv BootParseInv2 BootParseReopen2 BootParseMain BootParseRefuted.
+Section BootParseStatements.
+Import PV.Base.Prim PV.Gen.GenConst PV.Gen.GenFun PV.Model.Names PV.Model.Pack PV.Model.Alloc PV.Model.Codec PV.Model.Eltorito PV.Model.Account PV.Model.AccountLinks PV.Model.AccountBoot PV.Model.BootParse PV.Proofs.PackProofs PV.Proofs.AllocProofs PV.Proofs.AccountLemmas PV.Proofs.AccountProofs PV.Proofs.AccountLinksLemmas PV.Proofs.AccountLinksPurge PV.Proofs.AccountLinksInv PV.Proofs.AccountBootLemmas PV.Proofs.AccountBootInv PV.Proofs.AccountBootInv2 PV.Proofs.AccountBootFix PV.Proofs.AccountBootProofs PV.Proofs.BootParseLayout PV.Proofs.BootParseCat PV.Proofs.BootParseWalk PV.Proofs.BootParseLink PV.Proofs.BootParseTable PV.Proofs.BootParseProofs PV.Proofs.BootParseReopen PV.Proofs.BootParseRoom PV.Proofs.BootParseExact PV.Proofs.BootParseInv PV.Proofs.BootParseInv2 PV.Proofs.BootParseReopen2 PV.Proofs.BootParseMain PV.Proofs.BootParseRefuted.
+Local Open Scope Z_scope.
+Theorem C11_open_reconstructs_the_boot_state ops :
+  let s := brun binit ops in
+  lspace (bl s) <= 4294967295 -> boot_parse (boot_view s) = POk (reopened s).
+Proof. first [exact (@boot_parse_view) | apply (@boot_parse_view) | intros; eapply (@boot_parse_view); eassumption]. Qed.
+
+Theorem C11_reopened_state_differs_only_by_padding ops :
+  let s := brun binit ops in
+  let r := reopened s in
+  let tbl := linodes (bl s) in
+  (* the hierarchy: only the records of EMPTY files change their inode (each gets one of its own) *)
+  lroot (bl r) = lmap_ino (bp_relabel (lnext (bl s)) tbl) (lroot (bl s)) /\
+  (* the PVD numbers *)
+  lspace (bl r) = lspace (bl s) /\ lptr_size (bl r) = lptr_size (bl s) /\ lptr_ext (bl r) = lptr_ext (bl s) /\
+  (* the catalog: same contents, same inodes behind the entries; its names are the records that point at it,
+     in the order of the walk, or the FAKEELT record *)
+  (forall b, bboot s = Some b ->
+     exists names, bboot r = Some {| cat_recs := names; bcat := bcat b; binos := binos b |} /\
+       names = match noino_labels tbl (lvisit (bl s)) with [] => [bp_fake (lnext (bl s))] | ns => ns end) /\
+  (bboot s = None -> bboot r = None) /\
+  (* every non-empty file that has a name keeps its inode and its length, and its data is where it was written *)
+  (forall i, bp_placed s i -> 0 < lrefcount i (lroot (bl s)) ->
+     len_of i (linodes (bl r)) = len_of i tbl /\ In (i, (rba_of s i, len_of i tbl)) (reopened_src s)) /\
+  (* a boot file WITHOUT name: same inode, same extent; with a boot info table (and at least 64 bytes) its exact
+     length, else all the blocks it was written with: the original bytes and the zero padding of the last block *)
+  (forall b i, bboot s = Some b -> In i (binos b) -> lrefcount i (lroot (bl s)) = 0 ->
+     let len' := len_of i (linodes (bl r)) in
+     len' = (if mem i (bbits s) && (64 <=? len_of i tbl) then len_of i tbl else blk_of s i * C) /\
+     len_of i tbl <= len' <= blk_of s i * C /\ In (i, (rba_of s i, len')) (reopened_src s)).
+Proof. first [exact (@reopened_equiv) | apply (@reopened_equiv) | intros; eapply (@reopened_equiv); eassumption]. Qed.
+
+Theorem C11_invariants_after_any_edit_write_open_rounds s : bp_reach s -> BInv s /\ BFix s /\ PInv s.
+Proof. first [exact (@bp_reach_inv) | apply (@bp_reach_inv) | intros; eapply (@bp_reach_inv); eassumption]. Qed.
+
+Theorem C11_space_exact_after_any_edit_write_open_rounds s : bp_reach s -> lspace (bl s) = blayout_end s.
+Proof. first [exact (@boot_reopen_space_exact) | apply (@boot_reopen_space_exact) | intros; eapply (@boot_reopen_space_exact); eassumption]. Qed.
+
+Theorem C11_catalog_points_at_files_after_reopen s b : bp_reach s -> bboot s = Some b ->
+  In (17, 1) (blayout s) /\ In (cat_extent s, 1) (blayout s) /\
+  length (entry_rbas s) = S (length (c_sections (bcat b))) /\
+  (forall k i, nth_error (binos b) k = Some i ->
+     In i (ids (linodes (bl s))) /\ len_of i (linodes (bl s)) <> 0 /\
+     exists e, ino_extent s i = Some e /\ nth_error (entry_rbas s) k = Some e /\
+               In (e, blk_of s i) (blayout s) /\ cat_extent s < e /\ e + blk_of s i <= lspace (bl s)).
+Proof. first [exact (@boot_reopen_catalog_points_at_files) | apply (@boot_reopen_catalog_points_at_files) | intros; eapply (@boot_reopen_catalog_points_at_files); eassumption]. Qed.
+
+Theorem C11_rm_eltorito_after_reopen s : bp_reach s -> bwreck s = false ->
+  let r := reopened s in
+  let r1 := fst (bstep r BRmEltorito) in
+  (* accepted exactly when it is accepted on the never-closed object *)
+  snd (bstep r BRmEltorito) = snd (bstep s BRmEltorito) /\
+  (bboot s <> None ->
+     (* boot record and catalog are gone, no boot info table is left *)
+     bboot r1 = None /\ bbits r1 = [] /\
+     (* the names of the catalog are gone: every record that is left has an inode *)
+     (forall nm i st, In (LFile nm i st) (lvisit (bl r1)) -> In i (ids (linodes (bl r1)))) /\
+     (* every boot file without name is released: an inode that stays has a name *)
+     (forall i, In i (ids (linodes (bl r1))) -> 0 < lrefcount i (lroot (bl r1))) /\
+     (* and the volume size is exact, now and after every further edit *)
+     lspace (bl r1) = blayout_end r1 /\ bp_reach r1).
+Proof. first [exact (@boot_reopen_rm_eltorito) | apply (@boot_reopen_rm_eltorito) | intros; eapply (@boot_reopen_rm_eltorito); eassumption]. Qed.
+
+Theorem C11_reopen_hidden_boot_files_overlap_refuted_old :
+  let s := brun binit bp_overlap_ops in
+  entry_rbas s = [26; 27] /\
+  reopened_src_gen Old s = [(2%nat, (29, 100)); (0%nat, (26, 4096)); (1%nat, (27, 4096))] /\
+  ~ disjoint (26, ceiling_div 4096 C) (27, ceiling_div 4096 C) /\
+  lspace (bl (reopened_gen Old s)) = 30 /\ blayout_end (reopened_gen Old s) = 31 /\
+  bp_wrecked (reopened_gen Old s) = true /\
+  (* the current code: no overlap, exact *)
+  reopened_src s = [(2%nat, (29, 100)); (0%nat, (26, 2048)); (1%nat, (27, 4096))] /\
+  lspace (bl (reopened s)) = 30 /\ blayout_end (reopened s) = 30.
+Proof. first [exact (@boot_reopen_hidden_overlap_refuted_old) | apply (@boot_reopen_hidden_overlap_refuted_old) | intros; eapply (@boot_reopen_hidden_overlap_refuted_old); eassumption]. Qed.
+
+Theorem C11_reopen_hidden_boot_file_tail_lost_refuted_old :
+  let s := brun binit bp_shrink_ops in
+  len_of 0%nat (linodes (bl s)) = 70000 /\ len_of 0%nat (linodes (bl (reopened_gen Mid s))) = 2048 /\
+  lspace (bl (reopened_gen Mid s)) = 62 /\ blayout_end (reopened_gen Mid s) = 28 /\
+  (let r' := fst (bstep (reopened_gen Mid s) (BAddFile [] bp_nB 1)) in lspace (bl r') = 63 /\ blayout_end r' = 29) /\
+  (* the current code: every block (the bytes and the padding of the last block) comes back *)
+  len_of 0%nat (linodes (bl (reopened s))) = 35 * 2048 /\
+  lspace (bl (reopened s)) = 62 /\ blayout_end (reopened s) = 62.
+Proof. first [exact (@boot_reopen_hidden_tail_lost_refuted_old) | apply (@boot_reopen_hidden_tail_lost_refuted_old) | intros; eapply (@boot_reopen_hidden_tail_lost_refuted_old); eassumption]. Qed.
+
+End BootParseStatements.
